@@ -13,7 +13,7 @@
    all amounts of fuel; `Done` = the run terminated within the fuel.
    No axioms. *)
 From Coq Require Import List Arith.
-From GV Require Import Close.Skel Close.Compile Close.VMclose Close.CompileProofs Close.RefProofs Close.SimProofs Close.NoClosed Close.FragL Close.FragA Close.SimA.
+From GV Require Import Close.Skel Close.Compile Close.VMclose Close.CompileProofs Close.RefProofs Close.SimProofs Close.NoClosed Close.FragL Close.FragA Close.SimA Close.Boundary.
 Import ListNotations.
 
 (* exactly once: every closable value is closed as often as it was created *)
@@ -119,3 +119,28 @@ Theorem C10_coroutine_close_through_pcall_closes :
     run_vm 50 c [] = Done ([EvOpen 1; EvClose 1 None; EvCo None; EvPcall None], VReturn).
 Proof. exact coroutine_close_through_pcall_closes. Qed.
 Print Assumptions C10_coroutine_close_through_pcall_closes.
+
+(* The invariant at a Go boundary.  Every place where Go code runs Lua code and
+   may get an error back — pcall's CallContext, but also load with a reader
+   function, a debug hook, a __gc finaliser, a sort comparator, a gsub
+   replacement function, a metamethod called by a library function — must leave
+   the close stack as it found it: when the Go code receives the error, the
+   to-be-closed variables of the abandoned run have been closed with it.
+   In golua: Thread.RunContinuation + closePending to the height before the
+   run; in the model: exec of the callee from base = height before the call,
+   then cleanup to that height.
+   exec_frame: a continuation never touches the close-stack entries below its
+   base and leaves nothing above it when it returns. *)
+Theorem C10_close_stack_frame_discipline : forall fuel whole rest base s ev o s1 up low,
+  exec fuel whole rest base s = Done (ev, o, s1) -> stack s = up ++ low -> length low = base -> o <> VPanic ->
+  exists up', stack s1 = up' ++ low /\ (o = VReturn -> up' = []).
+Proof. exact exec_frame. Qed.
+Print Assumptions C10_close_stack_frame_discipline.
+
+Theorem C10_go_boundary_restores_close_stack : forall fuel c s ev o s1,
+  exec fuel c c (length (stack s)) s = Done (ev, o, s1) ->
+  (o = VReturn \/ exists x, o = VError x) ->
+  snd (fst (cleanup (stack s1) (length (stack s)) (match o with VError x => Some x | _ => None end))) = stack s
+  /\ (o = VReturn -> stack s1 = stack s).
+Proof. exact go_boundary_restores_close_stack. Qed.
+Print Assumptions C10_go_boundary_restores_close_stack.
